@@ -40,6 +40,7 @@ def main():
     modules = spec['modules']
     ck.checker_cmd = 'cd lean && lake build fpdriver ' + ' '.join(modules) + ' && lake env lean <#print axioms audit>'
     ck.obligations = list(spec['theorems'])
+    failing = []
     skip_proof = os.environ.get('VERIF_SKIP_PROOF') == '1'   # seeded-change evaluation only (tools/seedeval.py)
     ok, log = (True, '') if skip_proof else L.build_lean(modules)
     if skip_proof:
@@ -47,6 +48,7 @@ def main():
     elif not ok:
         proof_ok = False
         ck.notes.append('lake build failed: ' + log[-3000:])
+        failing = failing_declarations(log)
     else:
         bad = L.grep_forbidden()
         if bad:
@@ -84,8 +86,34 @@ def main():
     # ---- 5. broken proof obligation without a failing input
     if not proof_ok and not found_input:
         ck.violation('proof', {'what': 'a proof obligation of this property no longer checks',
-                               'theorem_module': modules, 'theorems': spec['theorems'], 'notes': ck.notes[-3:]}, has_input=False)
+                               'failing_declarations': failing, 'theorem_module': modules, 'theorems': spec['theorems'], 'notes': ck.notes[-3:]}, has_input=False)
     return ck.finish(assumptions=spec.get('assumptions', []))
+
+
+def failing_declarations(log):
+    """which declarations the Lean build rejected: `error: <file>:<line>:..` mapped to the enclosing theorem / def, plus translation errors
+       (a source that could not be translated leaves a generated file whose only theorem is `source_not_translatable`)"""
+    import re
+    out, seen = [], set()
+    for m in re.finditer(r'error: (FastPasta/[\w/]+\.lean):(\d+):\d+: ([^\n]*)', log):
+        f, line, msg = m.group(1), int(m.group(2)), m.group(3)
+        path = os.path.join(L.LEAN, f)
+        decl = '?'
+        try:
+            src = open(path).read().split('\n')
+            for i in range(min(line, len(src)) - 1, -1, -1):
+                mm = re.match(r'\s*(?:private\s+)?(theorem|lemma|def|example|instance)\s+([^\s:({]+)?', src[i])
+                if mm:
+                    decl = (mm.group(2) or mm.group(1)); break
+            if 'source_not_translatable' in '\n'.join(src[:8]):
+                msg = 'the Rust source could not be translated: ' + ' '.join(l for l in src[:4] if l.startswith('/-'))[:300]
+        except OSError:
+            pass
+        if (f, decl) not in seen:
+            seen.add((f, decl)); out.append({'file': 'lean/' + f, 'line': line, 'declaration': decl, 'message': msg[:200]})
+    for m in re.finditer(r'(rs2lean|stats2lean|src2lean|alpide2lean): cannot translate: ([^\n]*)', log):
+        out.append({'translator': m.group(1), 'message': m.group(2)[:300]})
+    return out[:12]
 
 
 if __name__ == '__main__':
